@@ -38,7 +38,7 @@ func lifeLine(cfg string, actions []string) string {
 
 func hasTok(cfg []string, t string) bool {
 	for _, c := range cfg {
-		if c == t {
+		if c == t || (t == "tls" && c == "tlsfiles") {
 			return true
 		}
 	}
@@ -342,7 +342,9 @@ func oracleC19(cfg []string, results []string) string {
 
 func genC09(tier string, seed uint64, emit func(string)) {
 	creds := []string{"none", "plaintext", "selfsigned", "foreign", "expired", "wrongcn", "intercn", "good", "garbage", "abort", "stall"}
-	for _, cfg := range []string{"plain tls", "plain tls cn=client", "plain tls cn=client pw=secret", "tls cn=client"} {
+	// (tlsfiles: the TLS configuration built by the framework from certificate, key and CA files, with a host trust
+	// store that contains the foreign CA)
+	for _, cfg := range []string{"plain tls", "plain tls cn=client", "plain tls cn=client pw=secret", "tls cn=client", "plain tlsfiles", "tlsfiles cn=client"} {
 		for _, c := range creds {
 			fault := "tlsbad:" + c
 			if c == "good" {
